@@ -116,6 +116,14 @@ def install():
     def best_gmm(*a, **k):
         out = orig_best(*a, **k)
         tap('best', int(out))
+        try:
+            ab = [float(x) for x in (a[0] if a else k['abics'])]
+            mode = k.get('mode', a[1] if len(a) > 1 else 'delta')
+            gain = float(k.get('delta_mul_gain', 1.))
+            tap('bestargs', {'ab10': [iround(x, 10) for x in ab], 'gain100': iround(gain, 100), 'mode': str(mode), 'best': int(out),
+                             'exact': abs(gain * 100 - round(gain * 100)) < 1e-9 and all(abs(x) < 1e7 for x in ab)})
+        except Exception:
+            pass
         return out
     layer.best_gmm = best_gmm
 
@@ -128,8 +136,10 @@ def install():
             raw = (_taps['best'][-1] + 1) if (_taps is not None and len(_taps.get('best', [])) > nb) else 1
             vals = np.asarray(a[0] if a else k['vals']).flatten()
             hl = sorted({(hint(h), int(lab)) for h, lab in zip(vals, out[1])})
+            ba = _taps['bestargs'][-1] if (_taps is not None and len(_taps.get('best', [])) > nb and _taps.get('bestargs')) else \
+                {'ab10': [], 'gain100': 100, 'mode': 'none', 'best': 0, 'exact': False}
             tap('gmm', {'nfin': int(out[0]), 'nraw': int(raw), 'hl': [list(x) for x in hl],
-                        'nmax': int(k.get('ncomp_max', 3))})
+                        'nmax': int(k.get('ncomp_max', 3)), 'sel': ba})
         except Exception:   # pragma: no cover
             pass
         return out
